@@ -37,6 +37,8 @@ def run(ctx: Context) -> None:
     # one label per recorded sample: labels are written for batch_size samples, so sample() must hand back exactly batch_size rows (C12 shape rules)
     from . import c12
     ctx.rule(c12.sample_rules)
+    # the label of a batch is recorded together with its samples (same commit region, after the user code ran): C02-R2
+    ctx.rule(c02.r2_aligned, v)
     ctx.rule(r3_persisted)
     ctx.rule(r3b_write_order)
     # the stored labels are those of this run only: the results table is rewritten whole, never appended to what the folder held (C04-R4)
